@@ -79,7 +79,17 @@ func c12Case(kind string, p, t *ref.T) core.Verdict {
 		if v < 0 {
 			return core.Fail("%s(%v,%v) = %v is negative", kind, p, t, v)
 		}
-		if math.Abs(v-exp) > 1e-7*math.Max(1, math.Abs(exp)) {
+		tol := 1e-7 * math.Max(1, math.Abs(exp))
+		if kind == "BCE" {
+			// "1 - p" for a prediction clipped to the upper bound: the float 1-(1-1e-12) is 9.99978e-13, the
+			// real number is 1e-12; their logarithms differ by 2.2e-5 and both are readings of the statement
+			for i := range p.V {
+				if p.V[i] >= 1-lossEps {
+					tol += 3e-5 * (1 - clipF(t.V[i], 0, 1)) / float64(len(p.V))
+				}
+			}
+		}
+		if math.Abs(v-exp) > tol {
 			return core.Fail("%s(%v,%v) = %v, expected %v", kind, p, t, v, exp)
 		}
 		if combo == 0 {
@@ -293,7 +303,11 @@ func c14Case(a actCfg, x *ref.T) core.Verdict {
 		// negative inputs are judged relative to themselves (down to 1e-300), with a loose factor
 		rel, floor = 1e-6, 1e-300
 	}
-	if ok, msg := core.RelClose(got, exp, rel, floor); !ok {
+	if a.kind == "Sigmoid" {
+		if ok, msg := relCloseFloor(got, exp, 1e-6, 1e-300); !ok {
+			return core.Fail("%s on %v (x=%v): %s", a, x.Shape, shortT(x), msg)
+		}
+	} else if ok, msg := core.RelClose(got, exp, rel, floor); !ok {
 		return core.Fail("%s on %v (x=%v): %s", a, x.Shape, shortT(x), msg)
 	}
 	if a.kind == "Softmax" {
